@@ -92,7 +92,10 @@ NEEDS_TOP = {"xtc", "trr", "dcd", "nc", "mdcrd", "xyz", "lammpstrj", "dtr", "rst
 
 FRAMES = [1, 2, 3]
 ATOMS = [1, 3, 9, 10, 11, 40]
-MAGS = ["1", "1e-3", "99", "limit"]
+# "huge": anisotropic extents far above 16777 nm (x +-1e4, y +-2e4, z +-2e5 nm): the range in which XTC switches to its
+# large-integer packing with a different bit width per axis; only for the binary formats (text fields overflow)
+MAGS = ["1", "1e-3", "99", "limit", "huge"]
+BINARY_FAMS = ("xtc", "trr", "dcd", "h5", "nc", "ncrst", "dtr")
 CELLS = ["none", "ortho", "triclinic", "varying"]
 
 
@@ -128,8 +131,12 @@ def build(case, fam, precision=3, n_chains=1):
         xyz = rng.uniform(lo, hi, size=(nf, na, 3))
         xyz[0, 0, 0] = hi * (1 - 1e-4)
         xyz[-1, -1, 2] = lo * (1 - 1e-4)
+    elif mag == "huge" and fam in BINARY_FAMS:
+        xyz = rng.uniform(-1.0, 1.0, size=(nf, na, 3)) * np.array([1.0e4, 2.0e4, 2.0e5])
+        xyz[:, 0, :] = np.array([-1.0e4, -2.0e4, -2.0e5])  # the extremes are attained in every frame
+        xyz[:, -1, :] = np.array([1.0e4, 2.0e4, 2.0e5])
     else:
-        m = float(mag)
+        m = 99.0 if mag == "huge" else float(mag)
         xyz = rng.uniform(-m, m, size=(nf, na, 3))
         xyz[0, 0, 1] = -0.75 * m  # always at least one negative coordinate
     xyz = xyz.astype(np.float32)
@@ -153,7 +160,7 @@ def build(case, fam, precision=3, n_chains=1):
 
 
 def MAGIDX(m):
-    return {"1": 0, "1e-3": 1, "99": 2, "limit": 3}.get(m, 4)
+    return {"1": 0, "1e-3": 1, "99": 2, "limit": 3, "huge": 5}.get(m, 4)
 
 
 def CELLIDX(c):
@@ -259,7 +266,7 @@ def _evaluate_raw(ext, case, options=None):
         bf = np.round(np.linspace(-9.5, 99.5, nf * na).reshape(nf, na), 2)
         kw["bfactors"] = bf
     atoms_cls = ("<=9-atoms" if na <= 9 else ">9-atoms") if fam == "xtc" else ""
-    mag_cls = "mag=limit" if case["mag"] == "limit" else "mag<=99"
+    mag_cls = "mag=limit" if case["mag"] == "limit" else ("mag=huge-anisotropic" if case["mag"] == "huge" else "mag<=99")
     cell_cls = {"none": "no-cell", "ortho": "orthorhombic", "triclinic": "triclinic", "varying": "varying:multi-frame" if nf > 1 else "orthorhombic",
                 "varying-tri": "varying:multi-frame" if nf > 1 else "triclinic"}[cell]
     count_cls = f"{'1-atom' if na == 1 else 'n-atoms'}:{'no-cell' if cell == 'none' else 'cell'}:{_frames_cls(nf)}"
@@ -439,7 +446,7 @@ def _neutral_variants(ext, case, options):
     if cell in ("varying", "varying-tri") and nf > 1:
         out.append(("varying-cell", ext, dict(case, cell="ortho" if cell == "varying" else "triclinic"), options))
     if mag != "1":
-        out.append(("mag=limit" if mag == "limit" else ("mag<1" if float(mag) < 1 else "mag>1"), ext, dict(case, mag="1"), options))
+        out.append(("mag=limit" if mag == "limit" else ("mag=huge-anisotropic" if mag == "huge" else ("mag<1" if float(mag) < 1 else "mag>1")), ext, dict(case, mag="1"), options))
     for k, dflt in OPTION_DEFAULTS.items():
         if k in options and options[k] != dflt:
             name = {"bfactors": "bfactors", "n_chains": "multi-chain"}.get(k, f"{k}={options[k]}")
@@ -586,9 +593,33 @@ def run(tier, seed, hint):
         jobs += _random_jobs(seed, 400)
     failed_base = set()
     ctx = multiprocessing.get_context("fork")
-    with cf.ProcessPoolExecutor(max_workers=min(12, os.cpu_count() or 4), mp_context=ctx) as ex:
-        for res in ex.map(_work, jobs, chunksize=2):
-            _apply(checks, res, failed_base)
+    from concurrent.futures.process import BrokenProcessPool
+
+    done = 0
+    try:
+        with cf.ProcessPoolExecutor(max_workers=min(12, os.cpu_count() or 4), mp_context=ctx) as ex:
+            for res in ex.map(_work, jobs, chunksize=2):
+                _apply(checks, res, failed_base)
+                done += 1
+    except BrokenProcessPool:
+        # a worker died (segfault / abort inside a codec): the library crashing on an input of the quantifier is a failure of
+        # the save/load contract.  Re-run the remaining jobs one per process to find the crashing case(s).
+        crashed = 0
+        for job in jobs[done:]:
+            try:
+                with cf.ProcessPoolExecutor(max_workers=1, mp_context=ctx) as ex1:
+                    res = ex1.submit(_work, job).result(timeout=300)
+                _apply(checks, res, failed_base)
+            except (BrokenProcessPool, cf.TimeoutError):
+                crashed += 1
+                for ext, case, options in (job if isinstance(job, list) else [job]):
+                    fam = ext.split(".")[0]
+                    mag = case.get("mag")
+                    wc = f"save_{fam}:process-killed" + (":mag=huge-anisotropic" if mag == "huge" else (":mag=limit" if mag == "limit" else ""))
+                    checks[0].fail("crash", wc, f"save/load of a .{ext} file killed the worker process (case {case})",
+                                   {"ext": ext, "case": case, "options": options, "check": None})
+                if crashed >= 3:
+                    break
     return list(checks)
 
 
